@@ -44,12 +44,17 @@ def kind_text(kind, i, rot=0):
         'leavereq': [">>> x = p(%d, 'o1')" % a, 'o1', '>>> # xdoctest: +REQUIRES(env:XDV_NOPE==1)'],
         'reportstyle': [">>> x = p(%d, 'o1')" % a, 'o1', '>>> # xdoctest: +REPORT_CDIFF, -REPORT_UDIFF'],
         'trail': [">>> print('b')  # xdoctest: +REQUIRES(env:XDV_E==0)", 'a', 'b', ">>> print('a')  # xdoctest: +REQUIRES(env:XDV_E==1)"],
-        'swapout': ['>>> import sys, io', ">>> x = p(%d, 'o1')" % a, 'o1', '>>> sys.stdout = io.StringIO()'],
+        'swapout': [['>>> import sys, io', ">>> x = p(%d, 'o1')" % a, 'o1', '>>> sys.stdout = io.StringIO()'],
+                    ['>>> import sys, os', ">>> x = p(%d, 'o1')" % a, 'o1', '>>> f = open(os.devnull, "w")', '>>> sys.stdout = f', '>>> f.close()'],
+                    ['>>> import sys', ">>> x = p(%d, 'o1')" % a, 'o1', '>>> class W(object):', '...     def write(self, s):', '...         return len(s)',
+                     '>>> sys.stdout = W()']][(rot + i) % 3],
         'warns': ['>>> import warnings', ">>> warnings.warn('only a warning %d')" % a, ">>> x = p(%d, 'o1')" % a, 'o1'],
         'filters': ['>>> import warnings', ">>> warnings.simplefilter('error')", ">>> x = p(%d, 'o1')" % a, 'o1'],
         # a requirement on a missing submodule of an existing package (unmet: nothing runs) / on that package (met)
         'reqsub': ['>>> # xdoctest: +REQUIRES(module:%s.xdv_no_such_submodule)' % PKGS[rot % len(PKGS)], ">>> x = p(%d, 'o1')" % a, 'o1'],
         'reqpkg': ['>>> # xdoctest: +REQUIRES(module:%s)' % PKGS[rot % len(PKGS)], ">>> x = p(%d, 'o1')" % a, 'o1'],
+        # rebinds the module's global G (1) and wants a value it can only reach if its own earlier binding survived
+        'bumpfail': ['>>> G = G + 1', '>>> x = p(%d)' % a, '>>> print(G)', '3'],
     }
     return t[kind]
 
@@ -68,7 +73,7 @@ def kind_stdout(kind, env=1):
     return {'pass': 'o1\n', 'failout': 'o1\n', 'failexc': '', 'failcompile': '', 'faildirective': '', 'skipall': '', 'skippart': 'o2\n', 'expexc': '', 'comment': '', 'disabled': 'o1\n',
             'disabledfail': 'o1\n', 'needell': 'o1 and more\n', 'bind': 'o1\n', 'probe': 'False\n', 'rebind': '5\n', 'readg': '1 1\n',
             'leaveskip': 'o1\n', 'leavereq': 'o1\n', 'reportstyle': 'o1\n', 'trail': 'a\n' if env == 1 else 'b\n', 'swapout': 'o1\n', 'warns': 'o1\n',
-            'filters': 'o1\n', 'reqsub': '', 'reqpkg': 'o1\n'}[kind]
+            'filters': 'o1\n', 'reqsub': '', 'reqpkg': 'o1\n', 'bumpfail': '2\n'}[kind]
 
 
 def render_module(kinds, rot=0, layout='google'):
